@@ -73,8 +73,18 @@ KINDS = {
     "object": dict(type="K9", init="K9(5)", shown="5", new="K9(6)", opt="K9?", ops={},
                    field_ops={"add": "3", "sub": "3", "mul": "3", "div": "3", "mod": "3"}, cmp=None,
                    loop=None, frm=None, unpack=None),
+    # list of lists: element writes two index steps below the const name
+    "list2": dict(type="[[int...]...]", init="[[5, 2], [1]]", shown="[[5, 2], [1]]", new=None, opt=None, ops={},
+                  elem_ops={"add": "3", "sub": "3", "mul": "3", "div": "3", "mod": "3"}, cmp=None,
+                  loop=None, frm=None, unpack=None),
+    # object of class K8 { items: [int...], inner: K9 }: writes two path steps below the const name
+    "object2": dict(type="K8", init="K8()", shown="505", new=None, opt=None, ops={},
+                    field_ops={"add": "3", "sub": "3", "mul": "3", "div": "3", "mod": "3"}, cmp=None,
+                    loop=None, frm=None, unpack=None, show="(%s.items)[0] * 100 + %s.inner.f"),
 }
 
+CLASS_K8 = ["class K8 {", "  items: [int...]", "  inner: K9", "  constructor(self) {", "    self.items = [5, 2]",
+            "    self.inner = K9(5)", "  }", "}"]
 CLASS_K9 = ["class K9 {", "  f: int", "  constructor(self, f: int) { self.f = f }", "}"]
 
 # ----------------------------------------------------------------------------- forms
@@ -83,9 +93,15 @@ WHOLE_STMT = ["assign", "typed_assign", "unpack", "unpack_const", "redeclare_con
 OPASSIGN = ["opassign_" + o for o in OPS]
 INDEX_OP = ["index_opassign_" + o for o in OPS]
 FIELD_OP = ["field_opassign_" + o for o in OPS]
-EXPR_FORMS = OPASSIGN + ["unwrap_assign"] + INDEX_OP + FIELD_OP          # usable inside a loop header
+INDEX2_OP = ["index2_opassign_" + o for o in OPS]               # cv[0][0] op= v
+FIELD2_OP = ["field2_opassign_" + o for o in OPS]               # cv.inner.f op= v
+PAREN_FIELD_INDEX_OP = ["parenfieldindex_opassign_" + o for o in OPS]   # (cv.items)[0] op= v
+PAREN_FIELD_FIELD_OP = ["parenfieldfield_opassign_" + o for o in OPS]   # (cv.inner).f op= v
+DEEP_OP = INDEX2_OP + FIELD2_OP + PAREN_FIELD_INDEX_OP + PAREN_FIELD_FIELD_OP
+EXPR_FORMS = OPASSIGN + ["unwrap_assign"] + INDEX_OP + FIELD_OP + DEEP_OP   # usable inside a loop header
 REACH_OUT = ["modify"] + EXPR_FORMS + ["index_assign", "field_assign"]   # reach a captured variable
-ALL_FORMS = WHOLE_STMT + ["modify", "index_assign", "field_assign"] + EXPR_FORMS
+REACH_OUT += ["index2_assign", "field2_assign"]
+ALL_FORMS = WHOLE_STMT + ["modify", "index_assign", "field_assign", "index2_assign", "field2_assign"] + EXPR_FORMS
 
 # ----------------------------------------------------------------------------- contexts
 CTXS = ["same_scope", "nested_block", "nested_function", "nested_function2", "method", "while_header",
@@ -108,6 +124,11 @@ for _place in ("module", "function", "block"):
     _d("const_typed@" + _place, "int", _place, "const", typed=True)
     _d("const_list@" + _place, "list", _place, "const", typed=True)
     _d("const_object@" + _place, "object", _place, "const")
+    _d("const_list2@" + _place, "list2", _place, "const", typed=True)
+    _d("const_object2@" + _place, "object2", _place, "const")
+    # declared by unpacking: `const [cv, cw9] = [5, 7]`
+    _d("const_unpacked@" + _place, "int", _place, "const", unpacked=True)
+_d("const_unpacked_str@module", "str", "module", "const", unpacked=True)
 _d("export_const@module", "int", "module", "const", typed=True, export=True)
 _d("const_optint@module", "optint", "module", "const", typed=True)
 _d("const_optint@function", "optint", "function", "const", typed=True)
@@ -161,6 +182,8 @@ KIND_FORMS = {
     "fixedlist": ["index_assign"] + INDEX_OP + ["redeclare_const", "shadow_class"],
     "object": ["assign", "typed_assign", "unwrap_assign", "modify", "redeclare_const", "redeclare_const_typed",
                "shadow_class", "field_assign"] + FIELD_OP,
+    "list2": ["index2_assign"] + INDEX2_OP,
+    "object2": ["field2_assign"] + FIELD2_OP + PAREN_FIELD_INDEX_OP + PAREN_FIELD_FIELD_OP,
     # a class / module name has no value of a storable type: only whole-name rebinding forms
     "class": ["assign", "typed_assign", "modify", "unpack", "unpack_const", "redeclare_const", "redeclare_const_typed",
               "shadow_class", "shadow_import_module", "shadow_import_name"],
@@ -221,7 +244,8 @@ for _f in ("unpack", "unpack_const", "redeclare_const", "redeclare_const_typed",
 
 # ----------------------------------------------------------------------------- program construction
 def base_form(form):
-    for p in ("field_of_member_opassign_", "index_opassign_", "field_opassign_", "opassign_"):
+    for p in ("field_of_member_opassign_", "parenfieldindex_opassign_", "parenfieldfield_opassign_", "index2_opassign_",
+              "field2_opassign_", "index_opassign_", "field_opassign_", "opassign_"):
         if form.startswith(p):
             return p[:-1], form[len(p):]
     return form, None
@@ -277,6 +301,22 @@ def write_text(decl, form):
     elif bf == "field_of_member_opassign":
         expr = "%s.f %s %s" % (name, OPSYM[op], KINDS["object"]["field_ops"][op])
         st = [expr]
+    elif bf == "index2_assign":
+        st = ["%s[0][0] = 9" % name]
+    elif bf == "index2_opassign":
+        expr = "%s[0][0] %s %s" % (name, OPSYM[op], k["elem_ops"][op])
+        st = [expr]
+    elif bf == "field2_assign":
+        st = ["%s.inner.f = 6" % name]
+    elif bf == "field2_opassign":
+        expr = "%s.inner.f %s %s" % (name, OPSYM[op], k["field_ops"][op])
+        st = [expr]
+    elif bf == "parenfieldindex_opassign":
+        expr = "(%s.items)[0] %s %s" % (name, OPSYM[op], k["field_ops"][op])
+        st = [expr]
+    elif bf == "parenfieldfield_opassign":
+        expr = "(%s.inner).f %s %s" % (name, OPSYM[op], k["field_ops"][op])
+        st = [expr]
     elif bf == "loop_counter":
         st = [k["loop"] % name]
     elif bf == "unpack":
@@ -300,7 +340,8 @@ def write_text(decl, form):
         if bf == "unwrap_assign":
             cond = "(%s)" % expr
         else:
-            ek = "int" if bf in ("index_opassign", "field_of_member_opassign") or (
+            ek = "int" if bf in ("index_opassign", "field_of_member_opassign", "index2_opassign", "field2_opassign",
+                                 "parenfieldindex_opassign", "parenfieldfield_opassign") or (
                 bf == "field_opassign" and decl["how"] != "member") else kind
             ekd = KINDS[ek]
             if ekd.get("cmp"):
@@ -348,7 +389,9 @@ def build(decl, form, ctx, const=True, write=True):
         show = None
     if kind == "class":
         show = "(%s(3)).%s" % (name, "f" if name == "K9" else "q")      # 3 while the name is the real class
-    need_k9 = kind == "object" and how in ("const",)
+    if k.get("show"):
+        show = k["show"] % (name, name)
+    need_k9 = kind in ("object", "object2") and how in ("const",)
     if how in ("member", "module"):
         files["mx.ms"] = MX_SOURCE
         top.append("import mx")
@@ -365,6 +408,8 @@ def build(decl, form, ctx, const=True, write=True):
             top.append("import %s from mx" % name)
     if need_k9:
         top += CLASS_K9
+    if kind == "object2":
+        top += CLASS_K8
     bf, _op = base_form(form) if form else (None, None)
     if bf == "shadow_import_module":
         files["sub/%s.ms" % name] = "export zz9: int = 1\n"
@@ -378,7 +423,9 @@ def build(decl, form, ctx, const=True, write=True):
     # declaration
     if how in ("const", "const_notwin"):
         flag = ("export " if decl["export"] else "") + ("const " if const else "")
-        if decl["typed"]:
+        if decl.get("unpacked"):
+            body.append("%s[%s, cw9] = [%s, %s]" % (flag, name, k["init"], k["new"]))
+        elif decl["typed"]:
             body.append("%s%s: %s = %s" % (flag, name, k["type"], k["init"]))
         else:
             body.append("%s%s = %s" % (flag, name, k["init"]))
